@@ -8,14 +8,15 @@ import collections
 
 CONT, TERM = 0, 1
 
-EXC_OF_END = {'RAISE_A': 'ExcA', 'RAISE_A2': 'ExcA2', 'RAISE_BADSTR': 'ExcBadStr', 'RAISE_B': 'ExcB', 'RAISE_O': 'ExcO', 'INVALID': 'InvalidPhaseResultError',
+EXC_OF_END = {'RAISE_A': 'ExcA', 'RAISE_A2': 'ExcA2', 'RAISE_BADSTR': 'ExcBadStr', 'RAISE_B': 'ExcB', 'RAISE_O': 'ExcO', 'EXIT': 'SystemExit', 'INVALID': 'InvalidPhaseResultError',
               'INVALID_FALSE': 'InvalidPhaseResultError', 'INVALID_ZERO': 'InvalidPhaseResultError',
               'INVALID_EMPTY': 'InvalidPhaseResultError'}
 TERMINAL_KINDS = ('STOP', 'TIMEOUT')
 
 
 def is_terminal_kind(kind):
-  return kind in TERMINAL_KINDS or kind.startswith('EXC:')
+  # 'KILLED': an observed record of a body that called sys.exit() (or was killed)
+  return kind in TERMINAL_KINDS or kind.startswith('EXC:') or kind == 'KILLED'
 
 
 class Expect(object):
@@ -311,6 +312,10 @@ class Model(object):
       kind = 'CONTINUE'
     elif end in EXC_OF_END:
       kind = 'EXC:' + EXC_OF_END[end]
+      if end == 'EXIT':
+        # the framework cannot tell a body that called sys.exit() from one it killed: which diagnosers and teardown nodes
+        # still run is not documented; only the model-free audits apply (no PASS, complete record, callbacks, ...)
+        x.unspecified.append('phase body calls sys.exit()')
     elif end == 'FAIL_SUBTEST' and st is None:
       kind = 'EXC:InvalidPhaseResultError'
     elif end == 'BLOCK':
